@@ -104,9 +104,17 @@ def relayout_input(job):
             lays = gen_text.LAYOUTS if tier == "thorough" else rng.sample(gen_text.LAYOUTS, 6 if escalated else 4)
         for lay in lays:
             n += 1
-            pos = b
+            # mostly in front of the next token; sometimes right behind the previous one (before the line end, when the gap
+            # holds one); a gap without any layout is relaid out like any other
+            pos = a if (a < b and rng.random() < 0.4) else b
             if on_directive and tk.type in ("PRAGMA_DIRECTIVE", "INCLUDE_DIRECTIVE"):
-                continue  # nothing precedes the directive token on its line but blanks
+                # nothing precedes the directive token on its line but blanks; the end of the line BEFORE it is an ordinary
+                # place for layout when that line is not a directive line itself
+                if "\n" in t[a:b] and a > 0 and not directive_line(t, a - 1):
+                    pos = a
+                    lay = {" ": "  ", "\t": " // c", " /* c */ ": " /* c */"}.get(lay, lay)
+                else:
+                    continue
             t2 = t[:pos] + lay + t[pos:]
             counted.append(((t, pos, lay), a > 0))
             r2 = impl.impl_parse(t2, "f.h")
@@ -143,7 +151,10 @@ def relayout_input(job):
 def run(ctx):
     rng = ctx.rng("layout")
     inputs = [t for t in pcommon.corpus() if not has_doc(t) and "\\\n" not in t]
-    inputs += ["#pragma omp parallel for schedule(static, 4)\nvoid work(int n);\n",
+    inputs += ["auto s = \"a\"\"b\"_x;\n", "const char* t = \"x\" \"y\"\"z\"_s;\nint after;\n", "auto u = 1_km+2_km;\n", "auto v = {1_a,2_b};\nauto w = 'c'\"s\"_q;\n",
+               "const wchar_t* l = L\"a\"L\"b\"_w;\n", "int x;\n#pragma once\nint y;\n", "struct S { int m;\n#pragma pack(1)\n int n; };\n",
+               "enum E { A,\n#pragma region r\n B };\ntypedef int T;\n#pragma endregion\nint z;\n",
+               "#pragma omp parallel for schedule(static, 4)\nvoid work(int n);\n",
                "int a;\n#pragma pack(push, 1)\nstruct P { char c; };\n#pragma pack(pop)\nint z;\n",
                "namespace n {\n#pragma warning(disable : 4996)\nint q;\n}\n", "#pragma GCC diagnostic ignored \"-Wall\"\nint d;\n"]
     for _ in range(ctx.budget(60, 400)):
